@@ -315,8 +315,125 @@ def root(x: f32[{c + 4}], y: f32[{hi + 1}, {c + 1}]):
     return GenProgram(HEADER + body, "root", [], [], {"template": "mod_trip", "prefer_ops": ["simplify", "simplify", "unroll_loop", "cut_loop", "divide_loop", "std.cleanup"]})
 
 
-ALL = [t_temp2d, t_temp2d_call, t_two_loops, t_reduce_const, t_sliding, t_two_temps, t_split_range, t_writes, t_matmul, t_conv1d, t_blur, t_name_clash, t_config_loop, t_mod_trip]
+# ---------------------------------------------------------------------------
+# quasi-affine programs aimed at simplify / range analysis (C12, C13, C01, C04)
+def _qa_expr(rng, vars_, depth, want_neg=True):
+    """random quasi-affine index expression over vars_ (text)"""
+    if depth <= 0 or rng.random() < 0.25:
+        v = _c(rng, vars_)
+        r = rng.random()
+        if r < 0.35:
+            return v
+        if r < 0.6:
+            return f"{v} + {_c(rng, [1, 2, 3, 5])}"
+        if r < 0.75 and want_neg:
+            return f"{v} - {_c(rng, [1, 2, 3, 4])}"
+        if r < 0.9:
+            return f"{_c(rng, [2, 3, 4])} * {v}"
+        return f"{_c(rng, [2, 4])} * {v} + {_c(rng, vars_)}"
+    r = rng.random()
+    a = _qa_expr(rng, vars_, depth - 1, want_neg)
+    if r < 0.35:
+        return f"({a}) % {_c(rng, [2, 3, 4, 4, 5, 8])}"
+    if r < 0.65:
+        return f"({a}) / {_c(rng, [2, 3, 4, 4, 8])}"
+    b = _qa_expr(rng, vars_, depth - 1, want_neg)
+    if r < 0.85:
+        return f"{a} + {b}"
+    if want_neg:
+        return f"{a} - ({b})"
+    return f"{a} + {_c(rng, [2, 3])} * ({b})"
+
+
+def t_quasi(rng):
+    """loop nest whose trip counts, guards and indices are / and % expressions of iterators,
+    sizes and a possibly negative index argument; a guard and the statements it protects share
+    a sub-expression E (guard `E / M == c`, `E % M == c`, `E < c`; body uses E % M, E / M), the
+    ranges of the iterators are short constant ranges that do / do not straddle a multiple of the
+    modulus.  Every access is wrapped in `% P` (P prime, larger than the moduli) or left bare
+    (then the front end decides), so that the program is accepted and a changed index value
+    changes the location touched."""
+    P, Q = _c(rng, [11, 13, 17]), _c(rng, [7, 11, 13])
+    c = _c(rng, [3, 4, 4, 5, 8])
+    lo = _c(rng, [0, 0, 1, 2, 3, 5, 6])
+    ln = _c(rng, [1, 2, c - 1, c, c + 1, c + 2])
+    hi = lo + ln
+    s_ = _c(rng, [0, 1, 2, 3])
+    use_n = rng.random() < 0.5
+    use_r = rng.random() < 0.4
+    outer_hi = _c(rng, [str(hi), str(hi), "n"]) if use_n else str(hi)
+    trip = _c(
+        rng,
+        [
+            f"(j + {s_}) % {c}",
+            f"(j + {s_}) % {c} + 1",
+            f"(j + {s_}) / {c} + 1",
+            f"{c} - j % {c}",
+            f"(2 * j + {s_}) % {c} + 1",
+            str(_c(rng, [2, 3, 4, 5, 6, 8])),
+            "n % 4 + 1" if use_n else f"j % {c} + 2",
+        ],
+    )
+    vars_ = ["i", "j"] + (["n"] if use_n else []) + (["r"] if use_r else [])
+    E = _qa_expr(rng, vars_, _c(rng, [0, 1, 1, 2]))
+    M = _c(rng, [2, 3, 4, 4, 8])
+    c0 = _c(rng, [0, 0, 1, 1, 2, 3])
+    guard = _c(
+        rng,
+        [
+            f"({E}) / {M} == {c0}",
+            f"({E}) % {M} == {c0 % M}",
+            f"({E}) / {M} < {c0 + 1}",
+            f"({E}) < {M * (c0 + 1)}",
+            f"({E}) / {M} >= {c0}",
+            f"({E}) / {M} == {c0} and ({E}) >= 0",
+            f"({E}) >= 0 and ({E}) < {M}",
+            None,
+        ],
+    )
+
+    def idx(mod, depth=None):
+        r = rng.random()
+        if r < 0.4:
+            e = _c(rng, [f"({E}) % {M}", f"({E}) / {M}", f"({E}) % {M} + ({E}) / {M}", f"{M} * (({E}) / {M}) + ({E}) % {M}"])
+        else:
+            e = _qa_expr(rng, vars_, _c(rng, [1, 2, 2, 3]) if depth is None else depth)
+        if rng.random() < 0.75:
+            return f"({e}) % {mod}"
+        return e
+
+    def stmt():
+        op = _c(rng, ["=", "+="])
+        return f"y[{idx(Q)}, {idx(P)}] {op} x[{idx(P)}]"
+
+    ind = "            "
+    if guard is None:
+        inner = ind + stmt() + "\n" + (ind + stmt() + "\n" if rng.random() < 0.4 else "")
+    else:
+        inner = f"{ind}if {guard}:\n{ind}    {stmt()}\n"
+        if rng.random() < 0.5:
+            inner += f"{ind}else:\n{ind}    {stmt()}\n"
+    args = (["n: size"] if use_n else []) + (["r: index"] if use_r else []) + [f"x: f32[{P}]", f"y: f32[{Q}, {P}]"]
+    asserts = ""
+    if use_n:
+        nlo = _c(rng, [1, 1, 2, lo + 1])
+        asserts += f"    assert n >= {max(nlo, lo + 1)}\n    assert n <= {max(nlo, lo + 1) + _c(rng, [2, 4, 7])}\n"
+    if use_r:
+        asserts += f"    assert r >= {_c(rng, [-6, -3, -1, 0])}\n    assert r <= {_c(rng, [1, 3, 6])}\n"
+    body = f"""@proc
+def root({', '.join(args)}):
+{asserts}    for j in seq({lo}, {outer_hi}):
+        for i in seq(0, {trip}):
+{inner}"""
+    return GenProgram(HEADER + body, "root", [], [], {"template": "quasi", "prefer_ops": ["simplify"]})
+
+
+ALL = [t_temp2d, t_temp2d_call, t_two_loops, t_reduce_const, t_sliding, t_two_temps, t_split_range, t_writes, t_matmul, t_conv1d, t_blur, t_name_clash, t_config_loop, t_mod_trip, t_quasi]
 
 
 def any_template(rng):
     return rng.choice(ALL)(rng)
+
+
+def quasi_template(rng):
+    return (t_quasi if rng.random() < 0.8 else t_mod_trip)(rng)
